@@ -289,7 +289,7 @@ impl Prop for C09 {
     fn runs(&self, tier: Tier) -> u64 {
         N_ENUM
             + match tier {
-                Tier::Quick => 8000,
+                Tier::Quick => 24_000,
                 Tier::Thorough => 250_000,
             }
     }
